@@ -62,6 +62,17 @@ type selScn struct {
 	Spec   [][]int      `json:"spec"`
 }
 
+// abstract tag -> element name: "q" and "r" are custom elements (no entry in the atom table)
+func tagName(t string) string {
+	switch t {
+	case "q":
+		return "x-q"
+	case "r":
+		return "x-r"
+	}
+	return t
+}
+
 func buildDOM(t *selTree) []*html.Node {
 	nodes := make([]*html.Node, t.N)
 	for i := 0; i < t.N; i++ {
@@ -69,8 +80,8 @@ func buildDOM(t *selTree) []*html.Node {
 		switch t.Kind[i] {
 		case "elem":
 			n.Type = html.ElementNode
-			n.Data = t.Tag[i]
-			n.DataAtom = atom.Lookup([]byte(t.Tag[i]))
+			n.Data = tagName(t.Tag[i])
+			n.DataAtom = atom.Lookup([]byte(n.Data))
 			if t.Cls[i] {
 				n.Attr = append(n.Attr, html.Attribute{Key: "class", Val: "x c y"})
 			}
@@ -176,7 +187,7 @@ func pseudoText(p selPseudo, variant int) string {
 func compoundText(c selCompound, variant int) string {
 	var b strings.Builder
 	if c.Tag != "*" || (!c.Cls && !c.ID && len(c.Pcs) == 0) {
-		b.WriteString(c.Tag)
+		b.WriteString(tagName(c.Tag))
 	}
 	if c.ID {
 		b.WriteString("#i")
